@@ -66,7 +66,12 @@ def ob_typing(ctx):
     ctx.require(rc_eq(b.overhang_end(), a.overhang_start()), "end-is-not-rc-of-start")
     ta, tb_ = sdata(a.target_sequence().seq), sdata(b.target_sequence().seq)
     ctx.require(Eq(slen(ta), slen(tb_)), "target-length")
-    ctx.require(rc_eq(tb_[g.ovl:], ta[g.ovl:]), "body-not-reverse-complemented")
+    if g.five:
+        ctx.require(rc_eq(tb_[g.ovl:], ta[g.ovl:]), "body-not-reverse-complemented")
+    else:
+        # a 3'-overhang cutter leaves the single-stranded end at the other side: the fragment carries its trailing overhang
+        L = slen(ta)
+        ctx.require(rc_eq(tb_[:L - g.ovl], ta[:L - g.ovl]), "body-not-reverse-complemented")
     return True
 
 
@@ -191,6 +196,13 @@ def obligations(tier, seed):
         if _g.ovl >= 2 and all(ch in "ACGT" for ch in _g.site):  # (the template plasmids spell the site out literally)
             # (three pairwise distinct, pairwise non-complementary 1-nt cohesive ends do not exist)
             obs.append(Ob("end-to-end %s chain=2 vs reverse complements" % e, ob_e2e, dict(enzyme=e), samples=3, cost=3000))
+    # cutters leaving a 3' overhang (supported since fix 297887b): the typing half of the statement
+    for e, role in tier_pick(tier, [("BsrDI", "vector"), ("BsrDI", "module")],
+                             [("BsrDI", "vector"), ("BsrDI", "module"), ("BciVI", "vector"), ("BciVI", "module"), ("BseRI", "module")]):
+        F = fixed_letters(generic_class(st, role, e).structure())
+        obs.append(Ob("typing generic %s over %s (3' overhang) and its reverse complement n=%d" % (role, e, F + 1), ob_typing,
+                      dict(role=role, enzyme=e, n=F + 1), samples=4, cost=(F + 1) ** 3, expect_witness=("accepted", "rejected"),
+                      group="3' overhang"))
     for m in range(1, tier_pick(tier, 3, 4) + 1):
         for shuffle in (False, True):
             if m == 1 and shuffle:
